@@ -257,22 +257,9 @@ func isSpillOf(v ssa.Value, prm *ssa.Parameter) bool {
 // returns an error on equality and has no exit other than completion.
 func dupScanBefore(f *ssa.Function, w ssa.Instruction, newElem *ssa.Parameter, nameField string) (bool, string) {
 	for _, b := range f.Blocks {
-		// loop header: has a back edge
-		isHdr := false
-		for _, pr := range b.Preds {
-			if b.Dominates(pr) {
-				isHdr = true
-			}
-		}
-		if !isHdr || !b.Dominates(w.Block()) {
+		inLoop := naturalLoop(b)
+		if inLoop == nil || !b.Dominates(w.Block()) {
 			continue
-		}
-		// loop body = blocks dominated by b that can reach b
-		inLoop := map[*ssa.BasicBlock]bool{}
-		for _, x := range f.Blocks {
-			if b.Dominates(x) && (x == b || blockReaches(x, b, false)) {
-				inLoop[x] = true
-			}
 		}
 		if inLoop[w.Block()] {
 			continue
